@@ -663,8 +663,71 @@ func ruleValuePassthrough(r *Report) {
 				}
 			}
 		})
+		// … and what is returned is that value or a copy that keeps nil nil and empty empty (bytes.Clone): an append-copy
+		// turns one into the other — append([]byte{}, v...) makes a tombstone an empty value, append([]byte(nil), v...)
+		// makes an empty value a tombstone
+		isSrc := map[ssa.Value]bool{}
+		for _, v := range vals {
+			isSrc[v] = true
+		}
+		var keeps func(v ssa.Value, d int) bool
+		keeps = func(v ssa.Value, d int) bool {
+			if d > 8 {
+				return false
+			}
+			if isSrc[v] {
+				return true
+			}
+			switch x := v.(type) {
+			case *ssa.Phi:
+				for _, e := range x.Edges {
+					if !keeps(e, d+1) {
+						return false
+					}
+				}
+				return true
+			case *ssa.Call:
+				if sc := x.Call.StaticCallee(); sc != nil {
+					switch FuncKey(genericBody(sc)) {
+					case "bytes.Clone", "slices.Clone":
+						return keeps(x.Call.Args[0], d+1)
+					}
+				}
+				if bi, isB := x.Call.Value.(*ssa.Builtin); isB && bi.Name() == "append" {
+					for _, a := range x.Call.Args {
+						if t[a] || isSrc[a] {
+							return false
+						}
+					}
+				}
+				return true // some other derivation (a decoded field): not a copy of the value
+			case *ssa.UnOp:
+				if x.Op == token.MUL && isCell(x.X) {
+					sv, unknown := reachingStores(x)
+					if unknown {
+						return true
+					}
+					for _, e := range sv {
+						if e != zeroMarker && !keeps(e, d+1) {
+							return false
+						}
+					}
+				}
+				return true
+			case *ssa.Slice:
+				return keeps(x.X, d+1)
+			}
+			return true
+		}
+		for _, rs := range returnsOf(fn) {
+			for _, res := range rs.Instr.(*ssa.Return).Results {
+				if sl, isS := res.Type().Underlying().(*types.Slice); isS && types.Identical(sl.Elem(), types.Typ[types.Byte]) && !keeps(res, 0) {
+					bad = r.P.Pos(rs.Pos()) + " (returned through an append-copy, which does not keep nil and empty apart)"
+				}
+			}
+		}
 		if bad != "" {
-			r.Bad(rule, key, fn.Pos(), "the value obtained from the layer below is tested at "+bad+" before it is returned: a tombstone (nil value) of a newer table is skipped here, so an older table's value for the same key comes back")
+			r.Bad(rule, key, fn.Pos(), "the value obtained from the layer below is tested or re-made at "+bad+" before it is returned: a tombstone (nil value) of a newer table is skipped or becomes an empty value here, so an older table's value comes back or a deleted key shows up in a scan")
 		} else {
 			r.OK(rule, key, fn.Pos(), fmt.Sprintf("%d value source(s), forwarded untested", len(vals)))
 		}
